@@ -197,6 +197,8 @@ def run_one(mod: Any, drv: Any, case: Dict[str, Any]) -> Dict[str, Any]:
         res["status"] = "violation"
         res["violations"] = viol[:10]
     res["features"] = mod.features(case, obs) if hasattr(mod, "features") else {}
+    if isinstance(case, dict) and case.get("pre"):
+        res["features"]["history_other_analyses_first"] = 1
     res["nontrivial"] = bool(mod.nontrivial(case, obs, res["features"])) if hasattr(mod, "nontrivial") else True
     if hasattr(mod, "sample"):
         res["sample"] = mod.sample(case, obs)
@@ -225,6 +227,13 @@ def worker(prop: str, tier: str, idx: int, nworkers: int, seed: int, ncases: int
                 no = item
                 rng = case_rng(seed, prop, no)
                 case = mod.gen(rng, tier, no, wide=wide) if wide else mod.gen(rng, tier, no)
+                # history: in a quarter of the cases other public analyses run on the same TraceAnalysis object before
+                # the observed call (a result must not depend on what was asked before); drawn from a separate stream so
+                # that the generated traces themselves do not change
+                rng2 = case_rng(seed, prop + ":history", no)
+                if isinstance(case, dict) and "pre" not in case and rng2.random() < 0.25:
+                    from harness.props import common as _C
+                    case["pre"] = rng2.sample(_C.PRE_CALLS, rng2.randint(1, 3))
             r = run_one(mod, drv, case)
             r["no"] = no
             if r["status"] != "ok":
